@@ -43,38 +43,92 @@ Proof.
       rewrite bto_bslice by lia. f_equal. lia.
 Qed.
 
-(* Theorem 2 for size exponent 7: the BERT requests on the wire against any server that keeps the exponent at 7 *)
-Fixpoint bert_chain (body : list Z) (B offset : Z) (tr : list request) : Prop :=
+(* Theorem 2 for a client that starts at size exponent 7: the requests on the wire against ANY server.  A BERT message (exponent 7) carries
+   B = bert_size bytes and NUM counts 1024-byte blocks; when the server lowers the exponent the chain goes on with regular blocks. *)
+Definition unit_of (szx : Z) : Z := if szx =? 7 then 1024 else bsize szx.
+Definition blk_of (B szx : Z) : Z := if szx =? 7 then B else bsize szx.
+
+Fixpoint g_chain (body : list Z) (B offset maxszx : Z) (tr : list request) : Prop :=
   match tr with
   | [] => True
   | rq :: rest =>
     match rq_block1 rq with
     | None => no_block1 tr
     | Some (n, m, szx) =>
-      szx = 7 /\ n * 1024 = offset /\
+      0 <= szx <= maxszx /\ n * unit_of szx = offset /\
       bto body offset ++ rq_payload rq = bto body (offset + blen (rq_payload rq)) /\
-      (m = true -> blen (rq_payload rq) = B /\ offset + B < blen body) /\
-      (m = false -> 0 < blen (rq_payload rq) <= B /\ offset + blen (rq_payload rq) = blen body) /\
+      (m = true -> blen (rq_payload rq) = blk_of B szx /\ offset + blk_of B szx < blen body) /\
+      (m = false -> 0 < blen (rq_payload rq) <= blk_of B szx /\ offset + blen (rq_payload rq) = blen body) /\
       rq_size1 rq = (if offset =? 0 then Some (blen body) else None) /\
-      (if m then bert_chain body B (offset + B) rest else no_block1 rest)
+      (if m then g_chain body B (offset + blk_of B szx) szx rest else no_block1 rest)
     end
   end.
 
-Lemma no_block1_bert_chain body B offset tr : no_block1 tr -> bert_chain body B offset tr.
-Proof. intros H. destruct tr as [|rq rest]; [exact I|]. cbn [bert_chain]. inversion H as [|? ? H1 H2]; subst. rewrite H1. exact H. Qed.
+Lemma no_block1_g_chain body B offset mx tr : no_block1 tr -> g_chain body B offset mx tr.
+Proof. intros H. destruct tr as [|rq rest]; [exact I|]. cbn [g_chain]. inversion H as [|? ? H1 H2]; subst. rewrite H1. exact H. Qed.
+
+Lemma g_chain_mono body B offset mx mx' tr : mx <= mx' -> g_chain body B offset mx tr -> g_chain body B offset mx' tr.
+Proof. intros Hle. destruct tr as [|r0 rest]; [auto|]. cbn [g_chain]. destruct (rq_block1 r0) as [[[n0 m0] s0]|]; [|auto]. intros (H1 & H2). split; [lia|exact H2]. Qed.
+
+(* a regular chain (Proofs/C05.v) is a general chain *)
+Lemma b1_chain_g body B : forall tr offset mx, mx <= 6 -> b1_chain body offset mx tr -> g_chain body B offset mx tr.
+Proof.
+  induction tr as [|rq rest IH]; intros offset mx Hmx; [auto|]. cbn [b1_chain g_chain].
+  destruct (rq_block1 rq) as [[[n m] szx]|]; [|auto].
+  intros (H1 & H2 & H3 & H4 & H5 & H6 & H7). unfold unit_of, blk_of. replace (szx =? 7) with false by lia.
+  repeat (split; [assumption|]). destruct m; [apply IH; [lia|exact H7]|exact H7].
+Qed.
+
+Lemma reduce_size_7 t c : 0 <= t ->
+  reduce_size (Z.to_nat (7 - t)) t c 7 = if 7 <=? t then (c, 7) else (c * 2 ^ (6 - t), t).
+Proof.
+  intros Ht. destruct (7 <=? t) eqn:E.
+  - replace (Z.to_nat (7 - t)) with 0%nat by lia. reflexivity.
+  - replace (Z.to_nat (7 - t)) with (Datatypes.S (Z.to_nat (6 - t))) by lia. cbn [reduce_size].
+    replace (t <? 7) with true by lia. cbn [Z.eqb Pos.eqb]. change (7 - 1) with 6. rewrite reduce_size_spec by lia.
+    destruct (t <? 6) eqn:E6; [reflexivity|]. replace t with 6 by lia. cbn. f_equal. lia.
+Qed.
+
+(* the new cursor names the same byte offset *)
+Lemma reduce_7_offset t c c2 e2 : 0 <= t -> (if 7 <=? t then (c, 7) else (c * 2 ^ (6 - t), t)) = (c2, e2) ->
+  0 <= e2 <= 7 /\ c2 * unit_of e2 = c * 1024.
+Proof.
+  intros Ht. destruct (7 <=? t) eqn:E; intros H; inv H.
+  - split; [lia|reflexivity].
+  - split; [lia|]. unfold unit_of. replace (e2 =? 7) with false by lia.
+    assert (Hs : bsize ((6 - e2) + e2) = 2 ^ (6 - e2) * bsize e2) by (apply bsize_split; lia).
+    replace ((6 - e2) + e2) with 6 in Hs by lia. change (bsize 6) with 1024 in Hs. rewrite Hs. symmetry. apply Z.mul_assoc.
+Qed.
+
+(* what the loop does with the acknowledgement of a BERT message *)
+Lemma block1_react_7 rq resp cursor n m bn bm t : rq_block1 rq = Some (n, m, 7) -> rs_block1 resp = Some (bn, bm, t) -> 0 <= t ->
+  block1_react rq resp cursor 7 =
+    if negb (bn =? n) then B1Err UnexpectedBlock1Option else
+    let '(c2, e2) := if 7 <=? t then (cursor + blen (rq_payload rq) / 1024, 7) else ((cursor + blen (rq_payload rq) / 1024) * 2 ^ (6 - t), t) in
+    if negb m then (if bm || (rs_code resp =? CONTINUE) then B1Err UnexpectedBlock1Option else B1Break)
+    else if rs_observe resp then B1Err AttributeError
+    else if bm then B1Continue c2 e2
+    else if negb (is_successful (rs_code resp)) then B1Break else B1Continue c2 e2.
+Proof.
+  intros Hrq Hb Ht. unfold block1_react. rewrite Hrq, Hb. unfold bt_num, bt_more, bt_szx. cbn [fst snd Z.eqb Pos.eqb].
+  rewrite reduce_size_7 by lia. reflexivity.
+Qed.
 
 Section BertAnyServer.
   Context {S : Type}.
   Variable serve : S -> request -> S * sresult.
-  (* acknowledgements of BERT blocks keep exponent 7 (what other requests are answered with does not matter) *)
-  Hypothesis serve_keeps7 : forall s rq s' r b n m, rq_block1 rq = Some (n, m, 7) -> serve s rq = (s', SResp r) -> rs_block1 r = Some b -> 7 <= bt_szx b.
+  (* requests with exponents 0..7 are answered with responses as Message.decode can produce them *)
+  Hypothesis serve_wf : forall s rq s' r, bt_wf (rq_block1 rq) = true -> bt_wf (rq_block2 rq) = true -> serve s rq = (s', SResp r) -> resp_wf r = true.
 
-  Lemma block1_loop_bert_chain cfg fuel : 1024 <= c_mps cfg -> forall s cursor mbse s' tr o,
+  Lemma bt_wf6_wf b : bt_wf6 b = true -> bt_wf b = true.
+  Proof. unfold bt_wf6, bt_wf. destruct b as [[[n m] x]|]; lia. Qed.
+
+  Lemma block1_loop_g_chain cfg fuel : 1024 <= c_mps cfg -> bt_wf6 (c_block2 cfg) = true -> forall s cursor mbse s' tr o,
     0 <= cursor -> cursor * 1024 < blen (c_body cfg) -> blen (c_body cfg) > c_mps cfg ->
     block1_loop serve fuel s cfg cursor 7 mbse = (s', tr, o) ->
-    bert_chain (c_body cfg) (bert_size (c_mps cfg)) (cursor * 1024) tr.
+    g_chain (c_body cfg) (bert_size (c_mps cfg)) (cursor * 1024) 7 tr.
   Proof.
-    intros Hmps. destruct (bert_size_pos _ Hmps) as [HB HBdiv]. set (B := bert_size (c_mps cfg)) in *.
+    intros Hmps Hb2. destruct (bert_size_pos _ Hmps) as [HB HBdiv]. set (B := bert_size (c_mps cfg)) in *.
     induction fuel as [|f IH]; intros s cursor mbse s' tr o Hc Hoff Hfrag; cbn [block1_loop].
     - intros H; inv H. exact I.
     - unfold block1_request, fragmentation_threshold. cbn [Z.geb Z.compare Pos.compare Pos.compare_cont].
@@ -83,53 +137,60 @@ Section BertAnyServer.
       destruct (Hok Hoff) as (pl & more & Hex & Hcat & Hmore & Hfin). rewrite Hex. cbn [bind]. fold B in Hmore, Hfin.
       set (rq := {| rq_block1 := Some (cursor, more, 7); rq_block2 := c_block2 cfg;
                     rq_size1 := if cursor =? 0 then Some (blen (c_body cfg)) else None; rq_payload := pl |}).
-      assert (Hhead : forall rest, (if more then bert_chain (c_body cfg) B (cursor * 1024 + B) rest else no_block1 rest) ->
-                bert_chain (c_body cfg) B (cursor * 1024) (rq :: rest)).
-      { intros rest Hrest. cbn [bert_chain rq_block1 rq rq_payload rq_size1].
+      assert (Hhead : forall rest, (if more then g_chain (c_body cfg) B (cursor * 1024 + B) 7 rest else no_block1 rest) ->
+                g_chain (c_body cfg) B (cursor * 1024) 7 (rq :: rest)).
+      { intros rest Hrest. cbn [g_chain rq_block1 rq rq_payload rq_size1]. unfold unit_of, blk_of. cbn [Z.eqb Pos.eqb].
         repeat (split; [first [lia | assumption | reflexivity]|]).
         split; [|exact Hrest]. destruct (cursor =? 0) eqn:E0.
         - replace (cursor * 1024 =? 0) with true by lia. reflexivity.
         - replace (cursor * 1024 =? 0) with false by lia. reflexivity. }
       destruct (serve s rq) as [s1 r] eqn:Hserve. destruct r as [resp|].
       2:{ intros H; inv H. apply Hhead. destruct more; [exact I|constructor]. }
+      assert (Hwf : resp_wf resp = true).
+      { apply (serve_wf s rq s1 resp); [cbn [rq rq_block1 bt_wf]; lia|cbn [rq rq_block2]; apply bt_wf6_wf; exact Hb2|exact Hserve]. }
       destruct (block1_react rq resp cursor 7) as [e|c2 e2|] eqn:Hreact.
       + intros H; inv H. apply Hhead. destruct more; [exact I|constructor].
-      + (* continue: the block was non-final, the acknowledgement kept exponent 7 *)
-        assert (Hc2 : more = true /\ e2 = 7 /\ c2 = cursor + blen pl / 1024).
-        { unfold block1_react in Hreact. cbn [rq rq_block1 rq_payload] in Hreact.
-          destruct (rs_block1 resp) as [b1|] eqn:Hb1; [|discriminate].
-          pose proof (serve_keeps7 s rq s1 resp b1 cursor more eq_refl Hserve Hb1) as H7.
-          destruct (negb (bt_num b1 =? bt_num (cursor, more, 7))); [discriminate|].
-          cbn [Z.eqb Pos.eqb] in Hreact.
-          replace (Z.to_nat (7 - bt_szx b1)) with 0%nat in Hreact by lia. cbn [reduce_size] in Hreact.
-          unfold bt_more in Hreact at 1. cbn [fst snd] in Hreact.
-          destruct more; cbn [negb] in Hreact.
-          - repeat match type of Hreact with context [if ?b then _ else _] => destruct b end; inv Hreact; auto.
-          - repeat match type of Hreact with context [if ?b then _ else _] => destruct b end; discriminate. }
-        destruct Hc2 as (-> & -> & ->). destruct (Hmore eq_refl) as [Hpl Hlt].
-        destruct (block1_loop serve f s1 cfg _ 7 _) as [[s2 tr2] o2] eqn:R. intros H; inv H.
-        apply Hhead. rewrite Hpl in R.
-        replace (cursor * 1024 + B) with ((cursor + B / 1024) * 1024) by lia.
-        assert (0 <= B / 1024) by (apply Z.div_pos; lia).
-        eapply IH; try eassumption; try lia.
+      + (* continue: the block was non-final; the new cursor names offset + B at the (possibly lowered) exponent *)
+        assert (Hc2 : more = true /\ 0 <= e2 <= 7 /\ c2 * unit_of e2 = (cursor + blen pl / 1024) * 1024).
+        { destruct (rs_block1 resp) as [[[bn bm] t]|] eqn:Hb1; [|unfold block1_react in Hreact; rewrite Hb1 in Hreact; discriminate].
+          assert (Ht : 0 <= t) by (unfold resp_wf in Hwf; rewrite Hb1 in Hwf; cbn [bt_wf] in Hwf; lia).
+          rewrite (block1_react_7 rq resp cursor cursor more bn bm t eq_refl Hb1 Ht) in Hreact. cbn [rq rq_payload] in Hreact.
+          destruct (negb (bn =? cursor)); [discriminate|].
+          destruct (if 7 <=? t then (cursor + blen pl / 1024, 7) else ((cursor + blen pl / 1024) * 2 ^ (6 - t), t)) as [cc ee] eqn:Hp.
+          apply reduce_7_offset in Hp; [|lia].
+          destruct more; cbn [negb] in Hreact;
+            repeat match type of Hreact with context [if ?b then _ else _] => destruct b end; inv Hreact; auto. }
+        destruct Hc2 as (-> & He2 & Hc2). destruct (Hmore eq_refl) as [Hpl Hlt]. rewrite Hpl in Hc2.
+        assert (Hq : 0 <= B / 1024) by (apply Z.div_pos; lia).
+        assert (Hoff2 : c2 * unit_of e2 = cursor * 1024 + B) by lia.
+        destruct (block1_loop serve f s1 cfg c2 e2 _) as [[s2 tr2] o2] eqn:R. intros H; inv H.
+        apply Hhead. rewrite <- Hoff2.
+        destruct (e2 =? 7) eqn:E7.
+        * assert (e2 = 7) by lia. subst e2. unfold unit_of in *. cbn [Z.eqb Pos.eqb] in *.
+          eapply IH; try eassumption; lia.
+        * unfold unit_of in *. rewrite E7 in *. pose proof (bsize_pos e2 ltac:(lia)) as Hsz2.
+          assert (Hc2' : 1 <= c2) by nia.
+          apply (g_chain_mono _ _ _ e2 7); [lia|]. apply b1_chain_g; [lia|].
+          eapply (block1_loop_chain serve (fun s rq s' r Hq H => serve_wf s rq s' r (bt_wf6_wf _ (proj1 (andb_prop _ _ Hq))) (bt_wf6_wf _ (proj2 (andb_prop _ _ Hq))) H)); try eassumption; try lia.
+          unfold fragmentation_threshold. destruct (e2 >=? 6) eqn:E6; [lia|]. fold (bsize e2). assert (bsize e2 <= c2 * bsize e2) by nia. lia.
       + destruct (complete_by_requesting_block2 serve f s1 rq (clear_block1 resp) _) as [[s2 tr2] o2] eqn:R. intros H; inv H.
-        apply complete_no_block1 in R. apply Hhead. destruct more; [apply no_block1_bert_chain; exact R|exact R].
+        apply complete_no_block1 in R. apply Hhead. destruct more; [apply no_block1_g_chain; exact R|exact R].
   Qed.
 
   Definition bert_wire_ok (cfg : ccfg) (tr : list request) : Prop :=
     match tr with
     | [] => True
     | rq :: rest =>
-      if blen (c_body cfg) >? c_mps cfg then bert_chain (c_body cfg) (bert_size (c_mps cfg)) 0 tr
+      if blen (c_body cfg) >? c_mps cfg then g_chain (c_body cfg) (bert_size (c_mps cfg)) 0 7 tr
       else rq_block1 rq = None /\ rq_payload rq = c_body cfg /\ rq_size1 rq = None /\ no_block1 rest
     end.
 
-  Lemma run_bert_wire_ok cfg fuel s s' tr o : c_mbse cfg = 7 -> 1024 <= c_mps cfg ->
+  Lemma run_bert_wire_ok cfg fuel s s' tr o : c_mbse cfg = 7 -> 1024 <= c_mps cfg -> bt_wf6 (c_block2 cfg) = true ->
     run serve fuel s cfg = (s', tr, o) -> bert_wire_ok cfg tr.
   Proof.
-    intros Hm Hp. unfold run, bert_wire_ok. rewrite Hm. intros Hrun. destruct tr as [|rq rest]; [exact I|].
+    intros Hm Hp Hb2. unfold run, bert_wire_ok. rewrite Hm. intros Hrun. destruct tr as [|rq rest]; [exact I|].
     destruct (blen (c_body cfg) >? c_mps cfg) eqn:Hfrag.
-    - change 0 with (0 * 1024). eapply block1_loop_bert_chain; try eassumption; lia.
+    - change 0 with (0 * 1024) at 1. eapply block1_loop_g_chain; try eassumption; lia.
     - destruct fuel as [|f]; cbn [block1_loop] in Hrun; [inv Hrun|].
       unfold block1_request, fragmentation_threshold in Hrun. cbn [Z.geb Z.compare Pos.compare Pos.compare_cont] in Hrun. rewrite Hfrag in Hrun.
       set (rq0 := {| rq_block1 := None; rq_block2 := c_block2 cfg; rq_size1 := None; rq_payload := c_body cfg |}) in *.
@@ -142,26 +203,25 @@ Section BertAnyServer.
   Qed.
 End BertAnyServer.
 
-(* KNOWN FINDING (open), carried by the model: when the acknowledgement lowers the exponent from 7, the cursor is doubled once too often
-   (protocol.py:963-965 — the step 7 -> 6 keeps the 1024-byte unit): after 2048 bytes the client continues at offset 4096. *)
-Lemma bert_reduction_witness : exists scf cfg tr o,
+(* the scenario of the former finding (fixed in 166eafe): the first BERT message (2048 bytes) is acknowledged with exponent 6, the client
+   goes on with NUM 2 = offset 2048 in 1024-byte blocks and the conforming server completes the body *)
+Lemma bert_reduction_example : exists scf cfg st tr r,
   s_mis scf = None /\ c_mbse cfg = 7 /\
-  (let '(_, tr', o') := run (serve_ref scf) 10 sstate0 cfg in (tr', o')) = (tr, o) /\
-  map rq_block1 tr = [Some (0, true, 7); Some (4, false, 6)] /\ blen (rq_payload (hd {| rq_block1 := None; rq_block2 := None; rq_size1 := None; rq_payload := [] |} tr)) = 2048 /\
-  (exists r, o = Done r /\ rs_code r = REQUEST_ENTITY_INCOMPLETE).
+  run (serve_ref scf) 10 sstate0 cfg = (st, tr, Done r) /\
+  map rq_block1 tr = [Some (0, true, 7); Some (2, true, 6); Some (3, true, 6); Some (4, false, 6)] /\
+  sv_bodies st = [c_body cfg] /\ rs_code r = CHANGED.
 Proof.
   exists {| s_policy1 := [6]; s_policy2 := [7]; s_reps := [(Some 10, mkbody 5 1)]; s_rep_at := []; s_atomic := true; s_mis := None; s_bert := 2 |},
          {| c_body := mkbody 5000 1; c_mps := 2048; c_mbse := 7; c_block2 := None |}.
-  eexists _, _. split; [reflexivity|]. split; [reflexivity|]. split; [vm_compute; reflexivity|].
-  split; [reflexivity|]. split; [reflexivity|]. eexists. split; reflexivity.
+  eexists _, _, _. split; [reflexivity|]. split; [reflexivity|]. split; [vm_compute; reflexivity|].
+  split; [reflexivity|]. split; reflexivity.
 Qed.
 
-(* ---- Theorem 3 for size exponent 7: client x BERT reference server that keeps exponent 7 *)
 Record honest_bert_cfg (scf : scfg) (e : option Z) (rep : list Z) : Prop := {
   hb_mis : s_mis scf = None;
   hb_reps : s_reps scf = [(e, rep)];
   hb_rep_at : s_rep_at scf = [];
-  hb_pol1 : forall k, 7 <= pol (s_policy1 scf) k 6;
+  hb_pol1 : Forall (fun x => 0 <= x) (s_policy1 scf);    (* ANY acknowledgement policy: the exponent may be lowered from 7 at any time *)
   hb_pol2 : forall k, 7 <= pol (s_policy2 scf) k 6;
   hb_bert : 0 < s_bert scf }.
 
@@ -268,6 +328,10 @@ Proof.
   - unfold slice_response. destruct (nth _ _ _) as [etag rp]. destruct req_b2 as [[[n2 m2] s2]|]; destruct (_ || _); (right; reflexivity) || (left; reflexivity).
 Qed.
 
+Lemma b1_unit_eq szx : b1_unit szx = unit_of szx. Proof. reflexivity. Qed.
+Lemma unit_of_pos szx : 0 <= szx <= 7 -> 16 <= unit_of szx.
+Proof. intros H. unfold unit_of. destruct (szx =? 7) eqn:E; [lia|]. apply bsize_pos. lia. Qed.
+
 Section BertRef2.
   Variable scf : scfg. Variable e : option Z. Variable rep : list Z.
   Hypothesis Hh : honest_bert_cfg scf e rep.
@@ -279,71 +343,140 @@ Section BertRef2.
   Let body := c_body cfg.
   Let B := bert_size (c_mps cfg).
 
-  Lemma serve_ref_bert_block1 st n (m : bool) s1 pl :
+  Lemma serve_ref_bert_b1 st n (m : bool) szx s1 pl :
     let asm := if n =? 0 then (@nil Z) else sv_asm st in
-    n * 1024 = blen asm -> (m = true -> 0 < blen pl /\ blen pl mod 1024 = 0) ->
-    let k := sv_step st in
-    srv st {| rq_block1 := Some (n, m, 7); rq_block2 := None; rq_size1 := s1; rq_payload := pl |} =
+    n * unit_of szx = blen asm ->
+    (if szx =? 7 then m && ((blen pl =? 0) || negb (blen pl mod 1024 =? 0))
+     else (m && negb (blen pl =? unit_of szx)) || (negb m && (unit_of szx <? blen pl))) = false ->
+    let k := sv_step st in let aszx := Z.min szx (pol (s_policy1 scf) k 6) in
+    srv st {| rq_block1 := Some (n, m, szx); rq_block2 := None; rq_size1 := s1; rq_payload := pl |} =
       if m then ({| sv_asm := asm ++ pl; sv_bodies := sv_bodies st; sv_step := k + 1 |},
-                 SResp {| rs_code := if s_atomic scf then CONTINUE else CHANGED; rs_block1 := Some (n, s_atomic scf, 7); rs_block2 := None;
+                 SResp {| rs_code := if s_atomic scf then CONTINUE else CHANGED; rs_block1 := Some (n, s_atomic scf, aszx); rs_block2 := None;
                           rs_etag := None; rs_payload := []; rs_maxexp := 7; rs_observe := false |})
       else ({| sv_asm := []; sv_bodies := (asm ++ pl) :: sv_bodies st; sv_step := k + 1 |},
-            SResp (respond scf k CHANGED (Some (n, false, 7)) None)).
+            SResp (respond scf k CHANGED (Some (n, false, aszx)) None)).
   Proof.
-    intros asm Hoff Hlen k. unfold srv, serve_ref. rewrite (honest_is_bert scf e rep Hh). unfold honest_bert.
-    cbn [rq_block1 rq_payload rq_block2]. unfold b1_unit. cbn [Z.eqb Pos.eqb]. fold asm. fold k.
-    rewrite Hoff, Z.eqb_refl. cbn [negb]. rewrite (hb_mis _ _ _ Hh). rewrite (remote_exp_7 scf e rep Hh).
-    pose proof (hb_pol1 _ _ _ Hh k) as Hp. replace (Z.min 7 (pol (s_policy1 scf) k 6)) with 7 by lia.
-    destruct m; cbn [andb].
-    - destruct (Hlen eq_refl) as [H1 H2]. replace (blen pl =? 0) with false by lia. rewrite H2. cbn [orb negb Z.eqb]. reflexivity.
-    - reflexivity.
+    intros asm Hoff Hbad k aszx. unfold srv, serve_ref. rewrite (honest_is_bert scf e rep Hh). unfold honest_bert.
+    cbn [rq_block1 rq_payload rq_block2]. rewrite !b1_unit_eq. fold asm. fold k. fold aszx.
+    rewrite Hoff, Z.eqb_refl. cbn [negb]. rewrite Hbad. rewrite (hb_mis _ _ _ Hh). rewrite (remote_exp_7 scf e rep Hh).
+    destruct m; reflexivity.
   Qed.
 
-  Lemma block1_loop_bert_ref fuel : forall st cursor,
-    0 <= cursor -> cursor * 1024 < blen body -> blen body > c_mps cfg ->
-    (cursor <> 0 -> sv_asm st = bto body (cursor * 1024)) ->
-    (Z.to_nat (blen body - cursor * 1024) + Z.to_nat (blen rep) + 1 < fuel)%nat ->
-    exists st' tr r, block1_loop srv fuel st cfg cursor 7 7 = (st', tr, Done r) /\
+  Lemma block1_loop_bertsrv fuel : forall st cursor size_exp,
+    0 <= size_exp <= 7 -> 0 <= cursor -> cursor * unit_of size_exp < blen body ->
+    blen body > fragmentation_threshold (c_mps cfg) size_exp ->
+    (cursor <> 0 -> sv_asm st = bto body (cursor * unit_of size_exp)) ->
+    (Z.to_nat (blen body - cursor * unit_of size_exp) + Z.to_nat (blen rep) + 1 < fuel)%nat ->
+    exists st' tr r, block1_loop srv fuel st cfg cursor size_exp 7 = (st', tr, Done r) /\
       sv_bodies st' = body :: sv_bodies st /\ rs_payload r = rep /\ rs_etag r = e /\ rs_code r = CHANGED /\ rs_block1 r = None.
   Proof.
-    destruct (bert_size_pos _ Hmps) as [HB HBdiv]. fold B in HB, HBdiv.
-    induction fuel as [|f IH]; intros st cursor Hc Hoff Hfrag Hasm Hfuel; [lia|].
-    cbn [block1_loop]. unfold block1_request, fragmentation_threshold. cbn [Z.geb Z.compare Pos.compare Pos.compare_cont]. fold body.
-    replace (blen body >? c_mps cfg) with true by lia.
-    destruct (extract_blocks_partition_bert_lemma body (c_mps cfg) cursor Hmps Hc) as [_ Hok].
-    destruct (Hok Hoff) as (pl & more & Hex & Hcat & Hmore & Hfin). rewrite Hex. cbn [bind]. fold B in Hmore, Hfin. rewrite Hb2.
+    destruct (bert_size_pos _ Hmps) as [HB HBdiv]. fold B in HB, HBdiv. pose proof (blen_nonneg rep) as Hnn.
+    induction fuel as [|f IH]; intros st cursor size_exp Hs Hc Hoff Hfrag Hasm Hfuel; [lia|].
+    pose proof (unit_of_pos size_exp Hs) as Hu.
+    set (k := sv_step st). set (aszx := Z.min size_exp (pol (s_policy1 scf) k 6)).
+    assert (Hpol : 0 <= pol (s_policy1 scf) k 6) by (apply pol_nonneg; [apply (hb_pol1 _ _ _ Hh)|lia]).
     set (asm := if cursor =? 0 then [] else sv_asm st).
-    assert (Hasm' : asm = bto body (cursor * 1024)).
+    assert (Hasm' : asm = bto body (cursor * unit_of size_exp)).
     { subst asm. destruct (cursor =? 0) eqn:E0; [replace cursor with 0 by lia; reflexivity|apply Hasm; lia]. }
-    assert (Hasmlen : cursor * 1024 = blen asm) by (rewrite Hasm', blen_bto; [reflexivity|fold body; lia]).
+    assert (Hasmlen : cursor * unit_of size_exp = blen asm) by (rewrite Hasm', blen_bto; [reflexivity|lia]).
+    (* the block that is sent, in either regime *)
+    assert (Hblock : exists pl more, block1_request cfg cursor size_exp =
+               Ok {| rq_block1 := Some (cursor, more, size_exp); rq_block2 := None;
+                     rq_size1 := if cursor =? 0 then Some (blen body) else None; rq_payload := pl |} /\
+             bto body (cursor * unit_of size_exp) ++ pl = bto body (cursor * unit_of size_exp + blen pl) /\
+             (more = true -> blen pl = blk_of B size_exp /\ cursor * unit_of size_exp + blk_of B size_exp < blen body) /\
+             (more = false -> 0 < blen pl <= blk_of B size_exp /\ cursor * unit_of size_exp + blen pl = blen body)).
+    { unfold block1_request. fold body. replace (blen body >? fragmentation_threshold (c_mps cfg) size_exp) with true by lia. rewrite Hb2.
+      unfold unit_of, blk_of in *. destruct (size_exp =? 7) eqn:E7.
+      - assert (size_exp = 7) by lia. subst size_exp.
+        destruct (extract_blocks_partition_bert_lemma body (c_mps cfg) cursor Hmps Hc) as [_ Hok].
+        destruct (Hok Hoff) as (pl & more & Hex & Hcat & Hmore & Hfin). rewrite Hex. cbn [bind]. exists pl, more. auto.
+      - destruct (extract_blocks_partition_lemma body size_exp (c_mps cfg) cursor ltac:(lia) Hc) as [_ Hok].
+        destruct (Hok Hoff) as (pl & more & Hex & Hcat & Hmore & Hfin). rewrite Hex. cbn [bind]. exists pl, more. auto. }
+    destruct Hblock as (pl & more & Hrq & Hcat & Hmore & Hfin).
+    assert (Hblk : 16 <= blk_of B size_exp) by (unfold blk_of, unit_of in *; destruct (size_exp =? 7); lia).
+    cbn [block1_loop]. rewrite Hrq.
+    assert (Hbad : (if size_exp =? 7 then more && ((blen pl =? 0) || negb (blen pl mod 1024 =? 0))
+                    else (more && negb (blen pl =? unit_of size_exp)) || (negb more && (unit_of size_exp <? blen pl))) = false).
+    { unfold blk_of, unit_of in *. destruct (size_exp =? 7) eqn:E7; destruct more; cbn [andb orb negb]; try reflexivity.
+      - destruct (Hmore eq_refl) as [Hpl _]. assert (blen pl mod 1024 = 0) by (rewrite Hpl, <- HBdiv; apply Z.mod_mul; lia). lia.
+      - destruct (Hmore eq_refl) as [Hpl _]. lia.
+      - destruct (Hfin eq_refl) as [Hpl _]. lia. }
+    rewrite (serve_ref_bert_b1 st cursor more size_exp _ pl Hasmlen Hbad). fold asm k aszx.
     destruct more.
     - destruct (Hmore eq_refl) as [Hpl Hlt].
-      assert (Hmod : blen pl mod 1024 = 0) by (rewrite Hpl, <- HBdiv; apply Z.mod_mul; lia).
-      rewrite (serve_ref_bert_block1 st cursor true _ pl Hasmlen ltac:(intros; lia)). fold asm.
       cbn [rs_maxexp Z.ltb Z.compare Pos.compare Pos.compare_cont].
-      match goal with |- context [block1_react ?rq ?resp cursor 7] =>
-        assert (Hreact : block1_react rq resp cursor 7 = B1Continue (cursor + B / 1024) 7) end.
-      { unfold block1_react. cbn [rs_block1 rq_block1 bt_num bt_more bt_szx fst snd rs_code rs_observe rq_payload]. rewrite Z.eqb_refl. cbn [negb Z.eqb Pos.eqb Z.sub Z.to_nat reduce_size Z.opp Z.add Z.pos_sub].
-        rewrite Hpl. destruct (s_atomic scf); reflexivity. }
-      rewrite Hreact.
-      assert (Hq : 0 <= B / 1024) by (apply Z.div_pos; lia).
-      match goal with |- context [block1_loop srv f ?s1 cfg _ 7 7] =>
-        destruct (IH s1 (cursor + B / 1024)) as (st' & tr & r & Hrun & H1 & H2 & H3 & H4 & H5) end; try lia.
-      + intros _. cbn [sv_asm]. rewrite Hasm'. fold body in Hcat. rewrite Hcat. f_equal. lia.
+      match goal with |- context [block1_react ?rq ?resp cursor size_exp] =>
+        assert (Hreact : exists c2 e2, block1_react rq resp cursor size_exp = B1Continue c2 e2 /\
+                            0 <= e2 <= size_exp /\ c2 * unit_of e2 = cursor * unit_of size_exp + blk_of B size_exp) end.
+      { unfold blk_of, unit_of in *. destruct (size_exp =? 7) eqn:E7.
+        - assert (size_exp = 7) by lia. subst size_exp.
+          match goal with |- context [block1_react ?rq ?resp cursor 7] =>
+            rewrite (block1_react_7 rq resp cursor cursor true cursor (s_atomic scf) aszx eq_refl eq_refl ltac:(subst aszx; lia)) end.
+          rewrite Z.eqb_refl. cbn [negb rq_payload rs_observe rs_code].
+          destruct (if 7 <=? aszx then (cursor + blen pl / 1024, 7) else ((cursor + blen pl / 1024) * 2 ^ (6 - aszx), aszx)) as [cc ee] eqn:Hp.
+          pose proof Hp as Hp2. apply reduce_7_offset in Hp2; [|subst aszx; lia]. unfold unit_of in Hp2. rewrite Hpl in Hp2.
+          exists cc, ee. split; [destruct (s_atomic scf); reflexivity|]. split; [lia|]. destruct Hp2 as [_ Hp2]. rewrite Hp2. lia.
+        - match goal with |- context [block1_react ?rq ?resp cursor size_exp] =>
+            assert (Hex : exists c2 e2, block1_react rq resp cursor size_exp = B1Continue c2 e2) end.
+          { unfold block1_react. cbn [rs_block1 rq_block1 bt_num bt_more bt_szx fst snd rs_code rs_observe]. rewrite Z.eqb_refl. cbn [negb].
+            destruct (reduce_size _ _ _ _) as [c2 e2]. destruct (s_atomic scf); [eauto|]. cbn. eauto. }
+          destruct Hex as (c2 & e2 & Hex). exists c2, e2. split; [exact Hex|].
+          match type of Hex with block1_react ?rq ?resp _ _ = _ =>
+            destruct (block1_react_continue rq resp cursor size_exp cursor true size_exp c2 e2 ltac:(lia) eq_refl) as (_ & He2 & Hc2);
+              [unfold resp_wf; cbn [rs_block1 rs_block2 bt_wf]; subst aszx; lia|exact Hex|] end.
+          split; [lia|]. replace (e2 =? 7) with false by lia. lia. }
+      destruct Hreact as (c2 & e2 & Hreact & He2 & Hc2). rewrite Hreact.
+      pose proof (unit_of_pos e2 ltac:(lia)) as Hu2. assert (Hc2' : 1 <= c2) by nia.
+      match goal with |- context [block1_loop srv f ?s1 cfg c2 e2 7] =>
+        destruct (IH s1 c2 e2) as (st' & tr & r & Hrun & H1 & H2 & H3 & H4 & H5) end; try lia.
+      + unfold fragmentation_threshold in *. destruct (e2 >=? 6) eqn:E6.
+        * replace (size_exp >=? 6) with true in Hfrag by lia. exact Hfrag.
+        * assert (Hlt2 : c2 * unit_of e2 < blen body) by lia. unfold unit_of in Hlt2, Hu2. replace (e2 =? 7) with false in Hlt2, Hu2 by lia.
+          fold (bsize e2). assert (bsize e2 <= c2 * bsize e2) by nia. lia.
+      + intros _. cbn [sv_asm]. rewrite Hasm', Hc2. rewrite Hcat, Hpl. reflexivity.
       + rewrite Hrun. eexists _, _, _. split; [reflexivity|]. cbn [sv_bodies] in H1. repeat split; assumption.
     - destruct (Hfin eq_refl) as [Hpl Hend].
-      rewrite (serve_ref_bert_block1 st cursor false _ pl Hasmlen ltac:(discriminate)). fold asm.
-      pose proof (blen_nonneg rep) as Hnn.
       rewrite (respond_bert scf e rep Hh _ _ _ None 0) by (auto || lia). cbv zeta. cbn [Z.mul Z.add rs_maxexp Z.ltb Z.compare Pos.compare Pos.compare_cont].
-      match goal with |- context [block1_react ?rq ?resp cursor 7] => assert (Hreact : block1_react rq resp cursor 7 = B1Break) end.
+      match goal with |- context [block1_react ?rq ?resp cursor size_exp] => assert (Hreact : block1_react rq resp cursor size_exp = B1Break) end.
       { unfold block1_react. cbn [rs_block1 rq_block1 bt_num bt_more bt_szx fst snd rs_code]. rewrite Z.eqb_refl. cbn [negb].
         destruct (reduce_size _ _ _ _). reflexivity. }
       rewrite Hreact.
       match goal with |- context [complete_by_requesting_block2 srv f ?s1 ?t _ 7] =>
-        destruct (complete_bert_ref scf e rep Hh f s1 t (sv_step st) CHANGED (Some (cursor, false, 7))) as (st' & tr & r & Hrun & H1 & H2 & H3 & H4 & H5 & H6) end; try lia; try reflexivity.
+        destruct (complete_bert_ref scf e rep Hh f s1 t k CHANGED (Some (cursor, false, aszx))) as (st' & tr & r & Hrun & H1 & H2 & H3 & H4 & H5 & H6) end; try lia; try reflexivity.
       rewrite (respond_bert scf e rep Hh _ _ _ None 0) in Hrun by (auto || lia). cbv zeta in Hrun. cbn [Z.mul Z.add] in Hrun.
       unfold srv. rewrite Hrun. eexists _, _, _. split; [reflexivity|]. cbn [sv_bodies] in H5. rewrite H5.
-      repeat split; try assumption. f_equal. rewrite Hasm'. fold body in Hcat. rewrite Hcat. apply bto_all. lia.
+      repeat split; try assumption. f_equal. rewrite Hasm', Hcat. apply bto_all. lia.
+  Qed.
+
+  Lemma serve_ref_bert_wf st rq st' r : serve_ref scf st rq = (st', SResp r) -> bt_wf (rq_block1 rq) = true -> bt_wf (rq_block2 rq) = true -> resp_wf r = true.
+  Proof.
+    intros Hs Hw1 Hw2. unfold serve_ref in Hs. rewrite (honest_is_bert scf e rep Hh), (hb_mis _ _ _ Hh) in Hs.
+    assert (Hpol : 0 <= pol (s_policy1 scf) (sv_step st) 6) by (apply pol_nonneg; [apply (hb_pol1 _ _ _ Hh)|lia]).
+    assert (Hresp : forall k code b1 rb2, bt_wf b1 = true -> bt_wf rb2 = true -> resp_wf (respond scf k code b1 rb2) = true).
+    { intros k code b1 rb2 H1 H2. unfold respond. destruct (_ && _).
+      - destruct (nth _ _ _) as [etag rp]. destruct (_ || _); [reflexivity|]. unfold resp_wf. cbn [rs_block1 rs_block2]. rewrite H1. cbn [andb].
+        destruct rb2 as [[[n2 m2] s2]|]; cbn [bt_wf] in *; [lia|]. destruct (_ <? _); reflexivity.
+      - assert (Hp2 : Forall (fun x => 0 <= x) (s_policy2 scf) \/ True) by (right; exact I).
+        unfold slice_response. destruct (nth _ _ _) as [etag rp]. pose proof (hb_pol2 _ _ _ Hh k) as Hp.
+        destruct rb2 as [[[n2 m2] s2]|]; cbn [bt_wf] in H2.
+        + match goal with |- context [if ?c then plain _ else _] => destruct c end; [reflexivity|].
+          unfold resp_wf, set_maxexp. cbn [rs_block1 rs_block2]. rewrite H1. cbn [andb bt_wf].
+          set (s3 := Z.min (Z.min s2 6) (pol (s_policy2 scf) k 6)). assert (0 <= s3 <= 6) by (subst s3; lia).
+          assert (0 < 2 ^ (s3 + 4)) by (apply Z.pow_pos_nonneg; lia). assert (0 <= 2 ^ (Z.min s2 6 + 4)) by (apply Z.pow_nonneg; lia).
+          assert (0 <= n2 * 2 ^ (Z.min s2 6 + 4) / 2 ^ (s3 + 4)) by (apply Z.div_pos; nia). lia.
+        + match goal with |- context [if ?c then plain _ else _] => destruct c end; [reflexivity|].
+          unfold resp_wf, set_maxexp. cbn [rs_block1 rs_block2]. rewrite H1. cbn [andb].
+          match goal with |- context [if ?c then Some _ else None] => destruct c end; [|reflexivity]. cbn [bt_wf]. change (Z.min 6 6) with 6. lia. }
+    unfold honest_bert in Hs. destruct (rq_block1 rq) as [[[n m] szx]|]; cbn [bt_wf] in Hw1.
+    - destruct (negb _) in Hs; [inv Hs; reflexivity|].
+      match type of Hs with context [if ?c then (_, set_maxexp _ (plain BAD_REQUEST)) else _] => destruct c end; [inv Hs; reflexivity|].
+      destruct m; inv Hs.
+      + unfold resp_wf. cbn [rs_block1 rs_block2 bt_wf]. lia.
+      + apply Hresp; [cbn [bt_wf]; lia|assumption].
+    - destruct (rq_block2 rq) as [[[n2 m2] s2]|] eqn:Hrb2.
+      + destruct (0 <? n2); inv Hs; apply Hresp; try reflexivity; assumption.
+      + inv Hs. apply Hresp; reflexivity.
   Qed.
 
   Lemma transfer_correct_bert_lemma fuel :
@@ -352,37 +485,31 @@ Section BertRef2.
       sv_bodies st = [body] /\ rs_payload r = rep /\ rs_etag r = e /\ is_successful (rs_code r) = true /\ rs_block1 r = None /\
       bert_wire_ok cfg tr.
   Proof.
-    intros Hfuel. unfold run. rewrite Hmbse. pose proof (blen_nonneg body) as Hnb.
-    assert (Hgoal : exists st tr r, block1_loop srv fuel sstate0 cfg 0 7 7 = (st, tr, Done r) /\
+    intros Hfuel.
+    assert (Hgoal : exists st tr r, run srv fuel sstate0 cfg = (st, tr, Done r) /\
       sv_bodies st = [body] /\ rs_payload r = rep /\ rs_etag r = e /\ is_successful (rs_code r) = true /\ rs_block1 r = None).
-    { destruct (blen body >? c_mps cfg) eqn:Hfrag.
-      - destruct (block1_loop_bert_ref fuel sstate0 0) as (st' & tr & r & Hrun & H1 & H2 & H3 & H4 & H5); try lia.
-        exists st', tr, r. rewrite H4. repeat split; assumption.
-      - destruct fuel as [|f]; [lia|]. cbn [block1_loop]. unfold block1_request, fragmentation_threshold. cbn [Z.geb Z.compare Pos.compare Pos.compare_cont].
-        fold body. rewrite Hfrag, Hb2.
-        set (rq0 := {| rq_block1 := None; rq_block2 := None; rq_size1 := None; rq_payload := body |}).
-        assert (Hserve : srv sstate0 rq0 = ({| sv_asm := []; sv_bodies := [body]; sv_step := 1 |}, SResp (respond scf 0 CONTENT None None))).
-        { unfold srv, serve_ref. rewrite (honest_is_bert scf e rep Hh). unfold honest_bert. cbn [rq0 rq_block1 rq_block2 rq_payload sstate0 sv_step sv_bodies sv_asm].
-          rewrite (hb_mis _ _ _ Hh). reflexivity. }
-        rewrite Hserve. pose proof (blen_nonneg rep) as Hnn.
-        rewrite (respond_bert scf e rep Hh _ _ _ None 0) by (auto || lia). cbv zeta. cbn [Z.mul Z.add rs_maxexp Z.ltb Z.compare Pos.compare Pos.compare_cont].
-        unfold block1_react. cbn [rs_block1].
-        match goal with |- context [complete_by_requesting_block2 srv f ?s1 ?t _ 7] =>
-          destruct (complete_bert_ref scf e rep Hh f s1 t 0 CONTENT None) as (st' & tr & r & Hrun & H1 & H2 & H3 & H4 & H5 & H6) end; try lia; try reflexivity.
-        rewrite (respond_bert scf e rep Hh _ _ _ None 0) in Hrun by (auto || lia). cbv zeta in Hrun. cbn [Z.mul Z.add] in Hrun.
-        unfold srv. rewrite Hrun. eexists _, _, _. split; [reflexivity|]. rewrite H5, H3. repeat split; assumption. }
-    destruct Hgoal as (st & tr & r & Hrun & H). exists st, tr, r. split; [exact Hrun|].
-    destruct H as (H1 & H2 & H3 & H4 & H5). repeat split; try assumption.
-    eapply (run_bert_wire_ok srv) with (fuel := fuel) (s := sstate0); try eassumption.
-    - (* the BERT reference server keeps exponent 7 in every acknowledgement of a BERT block *)
-      intros s rq s' r0 b n m Hrq Hs Hb. unfold srv, serve_ref in Hs. rewrite (honest_is_bert scf e rep Hh), (hb_mis _ _ _ Hh) in Hs.
-      unfold honest_bert in Hs. rewrite Hrq in Hs. pose proof (hb_pol1 _ _ _ Hh (sv_step s)) as Hp.
-      replace (Z.min 7 (pol (s_policy1 scf) (sv_step s) 6)) with 7 in Hs by lia.
-      destruct (negb _) in Hs; [inv Hs; discriminate|]. 
-      match type of Hs with context [if ?c then (_, set_maxexp _ (plain BAD_REQUEST)) else _] => destruct c end; [inv Hs; discriminate|].
-      destruct m; inv Hs.
-      + cbn [rs_block1] in Hb. inv Hb. unfold bt_szx. cbn. lia.
-      + destruct (respond_block1 scf (sv_step s) CHANGED (Some (n, false, 7)) (rq_block2 rq)) as [H|H]; rewrite H in Hb; inv Hb. unfold bt_szx. cbn. lia.
-    - unfold run. rewrite Hmbse. exact Hrun.
+    2:{ destruct Hgoal as (st & tr & r & Hrun & H). exists st, tr, r. split; [exact Hrun|].
+        destruct H as (H1 & H2 & H3 & H4 & H5). repeat split; try assumption.
+        eapply (run_bert_wire_ok srv) with (fuel := fuel) (s := sstate0); try eassumption.
+        - intros s rq s' r0 Hw1 Hw2 Hs. eapply serve_ref_bert_wf; eassumption.
+        - rewrite Hb2. reflexivity. }
+    unfold run. rewrite Hmbse. pose proof (blen_nonneg body) as Hnb.
+    destruct (blen body >? c_mps cfg) eqn:Hfrag.
+    - destruct (block1_loop_bertsrv fuel sstate0 0 7) as (st' & tr & r & Hrun & H1 & H2 & H3 & H4 & H5); try lia.
+      + unfold fragmentation_threshold. cbn [Z.geb Z.compare Pos.compare Pos.compare_cont]. lia.
+      + exists st', tr, r. rewrite H4. repeat split; assumption.
+    - destruct fuel as [|f]; [lia|]. cbn [block1_loop]. unfold block1_request, fragmentation_threshold. cbn [Z.geb Z.compare Pos.compare Pos.compare_cont].
+      fold body. rewrite Hfrag, Hb2.
+      set (rq0 := {| rq_block1 := None; rq_block2 := None; rq_size1 := None; rq_payload := body |}).
+      assert (Hserve : srv sstate0 rq0 = ({| sv_asm := []; sv_bodies := [body]; sv_step := 1 |}, SResp (respond scf 0 CONTENT None None))).
+      { unfold srv, serve_ref. rewrite (honest_is_bert scf e rep Hh). unfold honest_bert. cbn [rq0 rq_block1 rq_block2 rq_payload sstate0 sv_step sv_bodies sv_asm].
+        rewrite (hb_mis _ _ _ Hh). reflexivity. }
+      rewrite Hserve. pose proof (blen_nonneg rep) as Hnn.
+      rewrite (respond_bert scf e rep Hh _ _ _ None 0) by (auto || lia). cbv zeta. cbn [Z.mul Z.add rs_maxexp Z.ltb Z.compare Pos.compare Pos.compare_cont].
+      unfold block1_react. cbn [rs_block1].
+      match goal with |- context [complete_by_requesting_block2 srv f ?s1 ?t _ 7] =>
+        destruct (complete_bert_ref scf e rep Hh f s1 t 0 CONTENT None) as (st' & tr & r & Hrun & H1 & H2 & H3 & H4 & H5 & H6) end; try lia; try reflexivity.
+      rewrite (respond_bert scf e rep Hh _ _ _ None 0) in Hrun by (auto || lia). cbv zeta in Hrun. cbn [Z.mul Z.add] in Hrun.
+      unfold srv. rewrite Hrun. eexists _, _, _. split; [reflexivity|]. rewrite H5, H3. repeat split; assumption.
   Qed.
 End BertRef2.
